@@ -28,6 +28,9 @@ STORES = ["simple_class_rules", "complex_class_rules", "simple_id_rules", "compl
 def check(run):
     for cfg in run.cfgs("A", "C"):
         F = run.facts(cfg)
+        from analysis.guards import rule_visits_all as _rva
+        run.guard("C17.6.every-selector", cfg, lambda: _rva(run, "C17.6.every-selector", F, cfg, ['cosmetic_filter_cache::CosmeticFilterCache::hidden_class_id_selectors'],
+                  'Every selector stored under a requested class / id is returned unless it is excepted: an exception removes that selector only', minimum=3))
         run.guard("C17.1.partition", cfg, lambda: rule_partition(run, F, cfg))
         run.guard("C17.2.prefix-agreement", cfg, lambda: rule_prefix(run, F, cfg))
         run.guard("C17.3.exception-on-every-emission", cfg, lambda: rule_emission(run, F, cfg))
